@@ -1012,3 +1012,92 @@ Proof.
   split; [rewrite !env_get_set_other by (unfold kZF, kSF, kOF, kCF, X86Lift.n_ZF, X86Lift.n_SF, X86Lift.n_OF, X86Lift.n_CF in *; congruence); apply env_get_set_same|].
   rewrite !env_get_set_other by (unfold kZF, kSF, kOF, kCF, X86Lift.n_ZF, X86Lift.n_SF, X86Lift.n_OF, X86Lift.n_CF in *; congruence). reflexivity.
 Qed.
+
+(* ---------- glue: a one-block instruction graph run by the Sem-based runner = the operation list run in sequence ---------- *)
+From Falcon Require Import IL.Loc Isa.X86Run.
+
+Lemma find_instr_number addr k l j o :
+  nth_error l j = Some o ->
+  find_instr (number_ops addr k l) (k + Z.of_nat j) = Some (mkinstr (k + Z.of_nat j) o (Some addr)).
+Proof.
+  revert k j. induction l as [|x t IH]; intros k j H; [destruct j; discriminate|].
+  destruct j as [|j]; cbn [nth_error] in H.
+  - inversion H; subst. cbn [number_ops find_instr i_index]. replace (k + Z.of_nat 0) with k by lia.
+    rewrite Z.eqb_refl. reflexivity.
+  - cbn [number_ops find_instr i_index].
+    destruct (Z.eqb_spec k (k + Z.of_nat (Datatypes.S j))) as [E|_]; [lia|].
+    replace (k + Z.of_nat (Datatypes.S j)) with ((k + 1) + Z.of_nat j) by lia. apply IH. exact H.
+Qed.
+
+Lemma forward_scan_number f addr k l j o :
+  nth_error l j = Some o ->
+  instr_forward_scan f 0 (number_ops addr k l) (k + Z.of_nat j) =
+    match nth_error l (Datatypes.S j) with
+    | Some _ => Ok [LInstr 0 (k + Z.of_nat j + 1)]
+    | None => es <- cfg_edges_out (f_cfg f) 0 ;; Ok (edge_locs es)
+    end.
+Proof.
+  revert k j. induction l as [|x t IH]; intros k j H; [destruct j; discriminate|].
+  destruct j as [|j]; cbn [nth_error] in H.
+  - cbn [number_ops instr_forward_scan i_index]. replace (k + Z.of_nat 0) with k by lia. rewrite Z.eqb_refl.
+    destruct t as [|y t']; cbn [number_ops nth_error i_index]; reflexivity.
+  - cbn [number_ops instr_forward_scan i_index].
+    destruct (Z.eqb_spec k (k + Z.of_nat (Datatypes.S j))) as [E|_]; [lia|].
+    replace (k + Z.of_nat (Datatypes.S j)) with ((k + 1) + Z.of_nat j) by lia. rewrite (IH (k + 1) j H).
+    cbn [nth_error]. destruct (nth_error t (Datatypes.S j)); [first [reflexivity|repeat f_equal; lia]|reflexivity].
+Qed.
+
+Lemma exec_op_not_branch st o st' ev : is_branch o = false -> exec_op st o = Ok (st', ev) ->
+  match ev with EvBranch _ => False | _ => True end.
+Proof.
+  intros Nb H. destruct o; cbn [is_branch] in Nb; try discriminate; unfold exec_op in H;
+    repeat match type of H with
+           | context [bind ?x _] => destruct x as [?|?|] eqn:?; cbn [bind] in H; try discriminate
+           end; inversion H; subst; exact I.
+Qed.
+
+Theorem il_run_one_block addr ops :
+  (forall o, In o ops -> is_branch o = false) ->
+  forall suf pre st st' fuel,
+    ops = pre ++ suf -> suf <> [] -> exec_ops st suf = Ok st' -> (length suf <= fuel)%nat ->
+    il_run fuel (mkfunc addr (one_block addr ops) None) (LInstr 0 (Z.of_nat (length pre))) st = ILFin st' None.
+Proof.
+  intros Nb. induction suf as [|o t IH]; intros pre st st' fuel E Ne Ex Hf; [congruence|].
+  destruct fuel as [|fuel]; [cbn in Hf; lia|].
+  cbn [exec_ops] in Ex. destruct (exec_op st o) as [[st1 ev]|?|] eqn:Eo; cbn [bind fst] in Ex; try discriminate.
+  assert (Nth: nth_error ops (length pre) = Some o).
+  { rewrite E. rewrite nth_error_app2 by lia. rewrite Nat.sub_diag. reflexivity. }
+  assert (Bo: is_branch o = false) by (apply Nb; rewrite E; apply in_or_app; right; left; reflexivity).
+  pose proof (exec_op_not_branch _ _ _ _ Bo Eo) as Nev.
+  cbn [il_run]. unfold sem_step.
+  unfold loc_instruction, f_blocks, f_cfg, one_block. cbn [g_blocks find_block b_index Z.eqb block_instruction b_instrs].
+  unfold block_instruction. cbn [b_instrs].
+  pose proof (find_instr_number addr 0 ops (length pre) o Nth) as FI. cbn [Z.add] in FI. rewrite FI. cbn [i_op].
+  rewrite Eo.
+  assert (FW: forward (mkfunc addr (one_block addr ops) None) (LInstr 0 (Z.of_nat (length pre))) =
+              match nth_error ops (Datatypes.S (length pre)) with
+              | Some _ => Ok [LInstr 0 (Z.of_nat (length pre) + 1)]
+              | None => Ok []
+              end).
+  { unfold forward, f_blocks, f_cfg, one_block. cbn [g_blocks find_block b_index Z.eqb b_instrs].
+    pose proof (forward_scan_number (mkfunc addr (one_block addr ops) None) addr 0 ops (length pre) o Nth) as FS.
+    cbn [Z.add] in FS. unfold one_block in FS. rewrite FS. destruct (nth_error ops (Datatypes.S (length pre))); reflexivity. }
+  fold (one_block addr ops). rewrite FW.
+  destruct t as [|o2 t2].
+  - (* last operation: the block has no successor *)
+    assert (N2: nth_error ops (Datatypes.S (length pre)) = None).
+    { apply nth_error_None. rewrite E, app_length. cbn. lia. }
+    rewrite N2. cbn [exec_ops] in Ex. inversion Ex; subst st1.
+    destruct ev; try contradiction; reflexivity.
+  - assert (N2: nth_error ops (Datatypes.S (length pre)) = Some o2).
+    { rewrite E. rewrite nth_error_app2 by lia. replace (Datatypes.S (length pre) - length pre)%nat with 1%nat by lia. reflexivity. }
+    rewrite N2.
+    assert (CH: forall ev',
+                choose (mkfunc addr (one_block addr ops) None) st1 ev' [LInstr 0 (Z.of_nat (length pre) + 1)] =
+                Next (LInstr 0 (Z.of_nat (length pre) + 1)) st1 ev').
+    { intros ev'. unfold choose, enabled_locs, edge_enabled, loc_edge. cbn [bind]. reflexivity. }
+    assert (IHa: il_run fuel (mkfunc addr (one_block addr ops) None) (LInstr 0 (Z.of_nat (length (pre ++ [o])))) st1 = ILFin st' None).
+    { apply (IH (pre ++ [o]) st1 st' fuel); [rewrite <- app_assoc; exact E|discriminate|exact Ex|cbn in Hf |- *; lia]. }
+    rewrite app_length in IHa. cbn [length] in IHa. rewrite Nat2Z.inj_add in IHa. cbn [Z.of_nat Pos.of_succ_nat] in IHa.
+    destruct ev; try contradiction; rewrite CH; exact IHa.
+Qed.
